@@ -106,7 +106,10 @@ func (d *Data) initFieldTimes(mdb *memdb) {
 		for field := range neuronjson {
 			if strings.HasSuffix(field, "_time") {
 				rootField := field[:len(field)-5]
-				timestamp := neuronjson[field].(string)
+				timestamp, isString := neuronjson[field].(string)
+				if !isString {
+					continue
+				}
 				if _, found := mdb.fieldTimes[rootField]; !found {
 					mdb.fieldTimes[rootField] = timestamp
 				} else {
